@@ -23,7 +23,8 @@ type Variant struct {
 	BudgetS  int    `json:"budget_s"` // wall-clock cap per shard (0: tier default)
 	Shards   int    `json:"shards"`   // how many processes to split this variant over (0: 1)
 	Iterate  bool   `json:"iterate"`  // iterate the bound 0..Bound
-	Delay    bool   `json:"delay"`    // delay bounding: non-default picks at blocking points cost one deviation too
+	Delay    bool   `json:"delay"`
+	LIFO     bool   `json:"lifo"`     // default order among enabled foreground threads: newest first    // delay bounding: non-default picks at blocking points cost one deviation too
 }
 
 // Harness is a registered check body.
@@ -299,6 +300,7 @@ func Main(args []string) int {
 				}
 				cs = append(cs, n)
 			}
+			NewestFirst = v.LIFO
 			x, err := Replay(h.Sched(*v), cs, *nrep, v.MaxSteps)
 			type rep struct {
 				Err      string    `json:"error,omitempty"`
@@ -342,6 +344,7 @@ func Main(args []string) int {
 			if v.Delay {
 				o.FreeCost = 1
 			}
+			NewestFirst = v.LIFO
 			if b > 0 {
 				o.Deadline = time.Now().Add(time.Duration(b) * time.Second)
 			}
